@@ -18,7 +18,8 @@ EXTENDS Naturals, Sequences, FiniteSets
 
 CONSTANTS MaxData,     \* data strings have 0..MaxData characters
           DataAlphabet, NameAlphabet,
-          Splitter, MaxEvents, MaxPings
+          Splitter, MaxEvents, MaxPings,
+          Retries      \* subset of {0, 1, 2}: absent, positive, zero
 
 Strings(A, n) == UNION {[1..m -> A] : m \in 0..n}
 
@@ -43,14 +44,15 @@ RECURSIVE JoinLF(_)
 JoinLF(ls) == IF ls = <<>> THEN <<>> ELSE IF Len(ls) = 1 THEN ls[1] ELSE ls[1] \o <<"LF">> \o JoinLF(Tail(ls))
 
 \* ---------------------------------------------------------------- the encoder
-\* an event: [hasData, data, event, id, retry]; event/id = <<>> means "key absent"; retry = 0 means absent
+\* an event: [hasData, data, event, hasId, id, retry]; event = <<>> means "key absent"; an id key may be present with the
+\* empty value (it resets the client's last event id); retry: 0 absent, 1 a positive number ("DIGITS"), 2 the number zero ("ZERO")
 FieldLine(name, value) == <<name, "CO", "SP">> \o value
 RECURSIVE DataLines(_)
 DataLines(ls) == IF ls = <<>> THEN <<>> ELSE <<FieldLine("data", Head(ls))>> \o DataLines(Tail(ls))
 EncodeLines(e) ==
   (IF e.event # <<>> THEN <<FieldLine("event", e.event)>> ELSE <<>>)
-  \o (IF e.id # <<>> THEN <<FieldLine("id", e.id)>> ELSE <<>>)
-  \o (IF e.retry > 0 THEN <<FieldLine("retry", <<"DIGITS">>)>> ELSE <<>>)
+  \o (IF e.hasId THEN <<FieldLine("id", e.id)>> ELSE <<>>)
+  \o (IF e.retry > 0 THEN <<FieldLine("retry", <<IF e.retry = 1 THEN "DIGITS" ELSE "ZERO">>)>> ELSE <<>>)
   \o (IF e.hasData THEN DataLines(SplitData(e.data)) ELSE <<>>)
   \o <<<<>>, <<>>>>                          \* b"\n".join(..., b"", b"") : ends the block with an empty line
 Encode(e) == JoinLF(EncodeLines(e))
@@ -74,6 +76,7 @@ Process(buf, l) ==
        ELSE IF name = <<"event">> THEN <<[buf EXCEPT !.event = value], <<>>>>
        ELSE IF name = <<"id">> THEN <<[buf EXCEPT !.id = value], <<>>>>
        ELSE IF name = <<"retry">> /\ value = <<"DIGITS">> THEN <<[buf EXCEPT !.retry = 1], <<>>>>
+       ELSE IF name = <<"retry">> /\ value = <<"ZERO">> THEN <<[buf EXCEPT !.retry = 2], <<>>>>
        ELSE <<buf, <<>>>>
 RECURSIVE Run(_, _, _)
 Run(buf, ls, out) == IF ls = <<>> THEN out
@@ -82,11 +85,11 @@ Run(buf, ls, out) == IF ls = <<>> THEN out
 Parse(w) == LET ls == SplitWire(w, <<>>) IN Run(EmptyBuf, SubSeq(ls, 1, Len(ls) - 1), <<>>)
 
 \* ---------------------------------------------------------------- behaviour: a server yields events, pings may interleave
-Events == [hasData : BOOLEAN, data : Strings(DataAlphabet, MaxData), event : Strings(NameAlphabet, 1), id : Strings(NameAlphabet, 1), retry : {0, 1}]
+Events == [hasData : BOOLEAN, data : Strings(DataAlphabet, MaxData), event : Strings(NameAlphabet, 1), hasId : BOOLEAN, id : Strings(NameAlphabet, 1), retry : Retries]
 VARIABLES yielded, wire, parsed, npings     \* parsed: what the client has dispatched so far
 vars == <<yielded, wire, parsed, npings>>
 Init == yielded = <<>> /\ wire = <<>> /\ parsed = <<>> /\ npings = 0
-Yield(e) == /\ Len(yielded) < MaxEvents /\ (~e.hasData => e.data = <<>>)
+Yield(e) == /\ Len(yielded) < MaxEvents /\ (~e.hasData => e.data = <<>>) /\ (~e.hasId => e.id = <<>>)
             /\ yielded' = Append(yielded, e) /\ wire' = wire \o Encode(e) /\ parsed' = Parse(wire \o Encode(e)) /\ UNCHANGED npings
 SendPing == /\ npings < MaxPings /\ npings' = npings + 1
             /\ wire' = wire \o Ping /\ parsed' = Parse(wire \o Ping) /\ UNCHANGED yielded
@@ -98,7 +101,10 @@ PingBound == npings <= MaxPings
 Expected(e) == [data |-> JoinLF(SplitWire(e.data, <<>>)), event |-> e.event, id |-> e.id, retry |-> e.retry]
 WithData == SelectSeq(yielded, LAMBDA e : e.hasData)
 \* the client sees exactly the yielded events that carry data, in order, each with its name, id, retry and data lines
-\* (the id persists across events on the client side: an event without id inherits the last one - compare per event otherwise)
+\* (the id persists on the client side: an event without an id key carries the id of the last yielded event that had one)
+RECURSIVE LastId(_, _)
+LastId(es, n) == IF n = 0 THEN <<>> ELSE IF es[n].hasId THEN es[n].id ELSE LastId(es, n - 1)
+IndexOfData(i) == CHOOSE n \in 1..Len(yielded) : yielded[n].hasData /\ Cardinality({m \in 1..n : yielded[m].hasData}) = i
 RoundTrip ==
   LET got == parsed IN
   /\ Len(got) = Len(WithData)
@@ -106,6 +112,6 @@ RoundTrip ==
         /\ got[i].data = Expected(WithData[i]).data
         /\ got[i].event = WithData[i].event
         /\ got[i].retry = WithData[i].retry
-        /\ (WithData[i].id # <<>> => got[i].id = WithData[i].id)
+        /\ got[i].id = LastId(yielded, IndexOfData(i))
 PingIgnored == Parse(Ping) = <<>>
 ==========================================================================
